@@ -5,7 +5,6 @@
 package main
 
 import (
-	"regexp"
 	"bytes"
 	"flag"
 	"fmt"
@@ -15,6 +14,7 @@ import (
 	"go/token"
 	"os"
 	"path/filepath"
+	"regexp"
 	"strconv"
 	"strings"
 )
